@@ -32,6 +32,7 @@ def same_result(a, b):
 
 class DiffProp(Prop):
     families = {"quick": [("F1.2", 64)], "thorough": [("F1.2", 64)]}
+    strong_shrink = False  # also merge predicates / swap clauses while shrinking (one root cause, many shapes)
     strict_errors = False  # judge differing accept/reject decisions on 'either'-class programs
     include_negcycle = True
 
@@ -130,7 +131,7 @@ class DiffProp(Prop):
         def fails(p):
             return self.check_case(p, var)[0] == sym
 
-        small = progcheck.minimise(prog, fails, limit=80)
+        small = progcheck.minimise(prog, fails, limit=120 if self.strong_shrink else 80, strong=self.strong_shrink)
         for v2 in self.shrink_variant(var):
             if self.check_case(small, v2)[0] == sym:
                 var = v2
